@@ -46,7 +46,7 @@ def reg(id, src=None, deadline=(240, 1200), parts=None, **kw):
 
 reg("C01", "checks/C01_wire.cpp")
 reg("C02", parts=[part("checks/C02_bufdisc.cpp", shards=12), part("checks/C02_cppsites.cpp", flavour="asan", shards=4)])
-reg("C03", "checks/C03_rtsafe.cpp", extra=["engine/interpose_alloc.cpp"])
+reg("C03", "checks/C03_rtsafe.cpp", extra=["engine/interpose_alloc.cpp"], ldflags=["-ldl"])
 reg("C04", "checks/C04_dispatch.cpp", flavour="asan")
 reg("C05", "checks/C05_match.cpp")
 reg("C06", parts=[part("checks/C06_threadlink.cpp", special="tl_hook", omit=["src/cpp/thread-link.cpp"], shards=1, args=["--part", "B"], name="B"),
